@@ -206,6 +206,8 @@ def check_case(ctx, case):
         final = drop_nulls(cur)
         if any(s == '$value' or s.startswith('$merge') or s.startswith('$replace:') for s in strings_of(cur)):
             res.labels.add('output:not-judged-eval-directive')
+        elif has_marker(cur) and not has_marker(final):
+            res.labels.add('output:not-judged-null-valued-directive-key')
         elif has_marker(final):
             if o['err'] is None:
                 return res.violate('leftover', 'an unapplied directive survived into a successful output',
